@@ -198,3 +198,7 @@ func value(r *rand.Rand, p Profile, depth int) *ref.V {
 
 // Pick returns one element.
 func Pick[T any](r *rand.Rand, xs []T) T { return xs[r.IntN(len(xs))] }
+
+// Exported views for generators living in other packages.
+func TortureStrings() []string { return tortureStrings }
+func PlainStrings() []string   { return plainStrings }
